@@ -134,6 +134,8 @@ def run_construct(w, sym, code, st=None):
     return out
 
 
+PC_CODES = ['D:1.005', 'F:-2/7', 'i:1000000000000', 'D:0.000001', 'F:22/7',
+            'D:-123456789.123456789', 'i:0']
 TINY_TEXT = ['1e-65536', '-25E-65540', '0.5e-70000']
 TINY_UNITS = ['m', 'km', 'kg', 'K']        # (types without quantum)
 
@@ -325,7 +327,7 @@ def part_units(syms, nums):
             for sym2 in tm.units:
                 if sym2 == sym:
                     continue
-                for code in ('D:1.005', 'F:-2/7', 'i:1000000000000'):
+                for code in PC_CODES[:3 if len(nums) <= len(NUMS) else None]:
                     st.paths += 1
                     for sig, msg in run_parse_convert(w, sym, sym2, code,
                                                       st):
@@ -379,7 +381,23 @@ def run(tier, seed):
                                'x y', '\u2126', 'k\u2126', '\u212b',
                                'e\u0301m', 'zz ', ' zy', 'a  b',
                                'EUR/kg', 'USD/kg', 'USD/g'] + CURRENCIES
-    nums = NUMS
+    nums = list(NUMS)
+    if tier == 'thorough':
+        # the whole amount pool of the other checks, each number as object
+        # and as text (Decimals also as float and in exponent notation)
+        from . import amounts as A
+        for code in A.BASE + A.EXTRAS:
+            v = O.val(code)
+            nums.append(code)
+            if code[0] == 'F':
+                nums.append('s:' + code[2:])
+            else:
+                nums.append('s:' + code[2:])
+                nums.append('S:' + code[2:])
+                if len(code) < 14:
+                    nums.append('f:' + code[2:])
+                    nums.append(f"s:{code[2:]}e0")
+        nums = list(dict.fromkeys(nums))
     total.merge(pmap(part_units, [syms[i::16] for i in range(16)], (nums,),
                      fresh=True))
     texts = malformed_texts()
